@@ -543,6 +543,7 @@ func runBuf(c *ctx) {
 		// most cases dwell on one queue (PDR 1 of the first session): several buffering periods and releases of
 		// different lengths on the SAME queue, so that what one period leaves behind meets the next
 		focus := r.chance(65)
+		forceForw := false
 		for ev := 0; ev < evs; ev++ {
 			if len(sess) == 0 {
 				est()
@@ -550,10 +551,46 @@ func runBuf(c *ctx) {
 			}
 			s := sess[r.intn(len(sess))]
 			dwell := focus && r.chance(55)
-			if dwell {
+			if dwell || forceForw {
 				s = sess[0]
 			}
-			switch x := r.intn(100); {
+			x := r.intn(100)
+			if forceForw {
+				x = 50 // a FAR update
+			}
+			if dwell && s.pdr1far != 0 && r.chance(12) && !forceForw {
+				// a burst handed up while the loop is busy (inside an Update FAR whose data-plane calls take a while): more
+				// notifications than the loop's report queue holds wait their turn — and must be taken in arrival order
+				c.count("busyburst")
+				qBefore := e.queues(s.up) // an update to BUFF releases nothing: the queues after it are the queues before it
+				e.d.k.mu.Lock()
+				e.d.k.delay = map[uint8]time.Duration{gtp5gnl.CMD_GET_FAR: 30 * time.Millisecond, gtp5gnl.CMD_ADD_FAR: 30 * time.Millisecond}
+				e.d.k.mu.Unlock()
+				done := make(chan message.Message, 1)
+				go func() {
+					done <- e.rpc(message.NewSessionModificationRequest(0, 0, s.up, e.nextSeq(), 0, e.farIE(true, s.pdr1far, []byte{0x04}, -1, true)), &pend)
+				}()
+				time.Sleep(5 * time.Millisecond)
+				n := 140 + r.intn(260)
+				pay := r.bytes(20)
+				bs := forwarder.VerifBuffServer(e.d.g)
+				for k := 0; k < n; k++ {
+					p := append([]byte(nil), pay...)
+					p[0], p[1] = byte(k), byte(k>>8)
+					bs.ServeMsg(bufferMsg(s.up, 1, 0x04, p, true, false))
+				}
+				rsp := <-done
+				e.d.k.mu.Lock()
+				e.d.k.delay = nil
+				e.d.k.mu.Unlock()
+				e.settle()
+				c.emit("T buf.far %x %d 04 - idfirst = %s gtpu=%s q=%s k=%s", s.up, s.pdr1far, causeOf(rsp), e.gtpus(), qBefore, e.kfars(s.up))
+				e.settle()
+				c.emit("T buf.pkt %x 1 4 %s n=%d = dldr=- q=%s", s.up, hex.EncodeToString(pay), n, e.queues(s.up))
+				forceForw = true
+				continue
+			}
+			switch {
 			case x < 45:
 				// buffer notifications
 				up := s.up
@@ -645,6 +682,10 @@ func runBuf(c *ctx) {
 					far = s.pdr1far
 					aa = [][]byte{{0x02}, {0x02}, {0x01}, {0x04}}[r.intn(4)]
 					aat = hex.EncodeToString(aa)
+				}
+				if forceForw && s.pdr1far != 0 {
+					far, aa, aat = s.pdr1far, []byte{0x02}, "02"
+					forceForw = false
 				}
 				teid := int64(-1)
 				tt := "-"
